@@ -35,7 +35,8 @@ On(e) ==
      <<"wrong_key", e.enc.key = e.expkey>>,
      <<"wrong_engine_arg", e.enc.engine = i.engine>>,
      <<"wrong_timing_args", d.boots = Canon(d.boots) /\ e.enc.boots = BE(d.boots, 1, Len(d.boots), 0) /\ e.enc.time = BE(d.time, 1, Len(d.time), 0)>>,
-     <<"plugin_input_not_scoped_pdu", e.enc.data = e.req.plain>>,
+     \* a block plug-in pads: what the agent decrypts is the plug-in's input followed by padding
+     <<"plugin_input_not_scoped_pdu", e.enc.data = e.req.plain \/ (Len(e.enc.data) <= Len(e.req.plain) /\ e.enc.data = SubSeq(e.req.plain, 1, Len(e.enc.data)))>>,
      <<"response_not_decrypted_with_same_key", e.dec.key = e.expkey>>,
      <<"response_not_decrypted_with_message_params",
        e.dec.salt = e.resp.salt /\ e.dec.data = e.resp.cipher /\ e.dec.boots = e.resp.boots /\ e.dec.time = e.resp.time /\ e.dec.engine = e.resp.engine>> >>)
